@@ -1,7 +1,7 @@
 """C06: verification and the byte-level constructors are total."""
 from .common import *
 
-RULE = ("every prefix length (thorough: all; quick: all short ones + a stride) of valid signatures and keys, every value 0..16/255/2^32-1 of "
+RULE = ("default build and the constrained builds of C14 (levels 3 / heights 10,5,15 / W 2,8,4 ...): every prefix length (thorough: all; quick: all short ones + a stride) of valid signatures and keys, every value 0..16/255/2^32-1 of "
         "every level/type header field, k parseable signed public keys for k=0..10, trailing data, random bytes, "
         "through all three verify entry points and the four from_bytes constructors; oracle: catch_unwind")
 ASSUMPTIONS = ["non-termination would show as a hung harness (time-out), which is reported as a broken tie"]
@@ -74,6 +74,38 @@ def run(ctx):
     for kind, caps in (("sig", [65535, 65536, 74987, 74988, 74989]), ("vk", [59, 60, 61]), ("sk", [47, 48, 49]), ("vsig", [0, 1, 100000])):
         for l in [0, 1, 2] + caps:
             cases.append(Case("frombytes H=S32 kind=%s bytes=%s" % (kind, hx(bytes(l))), "frombytes/" + kind))
+    # the verifier of a constrained build sees the same untrusted bytes: signatures with more levels, other type codes (W1: 265 chains),
+    # taller trees than the build can produce must still be answered with ok / err (C14 configurations, harnesses built by setup)
+    cfg_cases = [c for c in cases if c.cls.startswith(("field/", "manyspk/", "random", "trailing", "frombytes/"))]
+    valid = [c for c in cases if c.cls == "prefix/sig"]
+    for c, a, b in ctx.both(sign_cases2(keys, rng), proj_class):
+        if a.startswith("ok"):
+            k = c.meta["key"]
+            sig = unhx(fields(a)["sig"])
+            for e in ("fn", "sig", "vsig"):
+                cfg_cases.append(Case(verify_line(k.H, b"cfg", sig, k.vk, e), "valid-default-signature"))
+            # re-typed to W1 (the widest LM-OTS signature) with the chain part resized, so that the whole signature parses
+            nspk, lv = parse_hss_sig(k.n, sig)
+            l = lv[-1]
+            np_ = CHAINS[(k.n, 1)]
+            ys = sig[l["start"] + 8 + k.n:l["start"] + 8 + k.n + k.n * l["p"]]
+            s1 = sig[:l["start"] + 4] + u32(1) + sig[l["start"] + 8:l["start"] + 8 + k.n] + (ys + rng.bytes_(k.n * np_))[:k.n * np_] + \
+                sig[l["start"] + 8 + k.n + k.n * l["p"]:]
+            for e in ("fn", "vsig"):
+                cfg_cases.append(Case(verify_line(k.H, b"cfg", s1, k.vk[:8] + u32(1) + k.vk[12:], e), "retyped-w1"))
+                cfg_cases.append(Case(verify_line(k.H, b"cfg", s1, k.vk, e), "retyped-w1"))
     for c, a, b in ctx.both(cases, proj_class):
         if a.startswith("panic"):
             ctx.fail("verification / constructor panicked on untrusted bytes", [c.line], a, "ok or err")
+    from . import C14
+    for cfg in (C14.CONFIGS_QUICK if ctx.tier == "quick" else C14.CONFIGS_THOROUGH):
+        if not ctx.open(cfg):
+            continue
+        for c, a, b in ctx.both([Case(c.line, "cfg/" + c.cls) for c in cfg_cases], proj_class):
+            if a.startswith("panic"):
+                ctx.fail("verification / constructor panicked on untrusted bytes in the build %s" % json.dumps(cfg), [c.line], a, "ok or err")
+    ctx.extra["configurations"] = ["default"] + [json.dumps(c) for c in (C14.CONFIGS_QUICK if ctx.tier == "quick" else C14.CONFIGS_THOROUGH)]
+
+
+def sign_cases2(keys, rng):
+    return [Case(sign_line(k.H, k.blob(rng.randrange(k.lifetime)), b"cfg"), "sign", {"key": k}) for k in keys]
